@@ -443,13 +443,13 @@ def r6_injection(report, repo):
 
 
 def run(report, repo):
-  r1_who(report, repo)
-  r2_construct_once(report, repo)
-  r3_teardown(report, repo)
-  r4_order(report, repo)
-  r5_test_start_plugs(report, repo)
-  r5b_work_list(report, repo)
-  r6_injection(report, repo)
+  report.guard(r1_who, report, repo)
+  report.guard(r2_construct_once, report, repo)
+  report.guard(r3_teardown, report, repo)
+  report.guard(r4_order, report, repo)
+  report.guard(r5_test_start_plugs, report, repo)
+  report.guard(r5b_work_list, report, repo)
+  report.guard(r6_injection, report, repo)
   from sa.rules import c01, c03  # pylint: disable=g-import-not-at-top
-  c01.r4_teardown_ladder(report, repo, rule='C08-R4l')
-  c03.r5_thread_proc(report, repo)
+  report.guard(c01.r4_teardown_ladder, report, repo, rule='C08-R4l')
+  report.guard(c03.r5_thread_proc, report, repo)
